@@ -95,6 +95,14 @@ func (s *server) setupListener(opts Opts) error {
 	networkType := getNetworkScheme(opts.BindAddress)
 	listenAddr := getListenAddress(opts.BindAddress)
 
+	if l, ok, err := verifListen(networkType, listenAddr); ok {
+		if err != nil {
+			return fmt.Errorf("listen (%s, %s) failed: %w", networkType, listenAddr, err)
+		}
+		s.listener = l
+		return nil
+	}
+
 	listener, err := net.Listen(networkType, listenAddr)
 	if err != nil {
 		return fmt.Errorf("listen (%s, %s) failed: %w", networkType, listenAddr, err)
